@@ -650,7 +650,7 @@ class ScenarioGenerator:
         """Sample single choice using dirichlet process """
         # sample an os from Dirichlet Process (alpha_V, uniform dist of OSs)
         if len(prev_vals) == 0 \
-           or np.random.rand() < (alpha_V / (alpha_V - 1)):
+           or np.random.rand() < (alpha_V / (alpha_V + len(prev_vals) - 1)):
             # draw randomly from uniform dist over services
             choice = np.random.choice(choices)
         else:
